@@ -26,64 +26,65 @@ def cval(v):
 def queries(tier):
     qs = []
     maxk = 2 if tier == 'quick' else 3
-    cap = 300 if tier == 'quick' else 1800
-    fix = FIX_Q if tier == 'quick' else FIX_T
+    cap = 240 if tier == 'quick' else 1800
+    fix = FIX_Q[:4] if tier == 'quick' else FIX_T
     pf = ['cadical', 'minisat', 'kissat']
+    pf2 = ['cadical', 'minisat']
+
+    def q(name, defs, fn, unwind=6, unwindset=None, backends=pf2):
+        qs.append(Query(name=name, harness='C17_bit.c', units=UNITS, defs=defs, unwind=unwind, unwindset=unwindset or {},
+                        cap=cap, backends=backends, functions=[fn]))
     for op, n in OPS.items():
-        # fixnum x fixnum: both lattice constants (one-line real path; kind tests must fold, see R10)
-        for xv in fix[:5]:
-            for yv in fix[:5]:
-                qs.append(Query(name='bit_%s[fix=%d,fix=%d]' % (op, xv, yv), harness='C17_bit.c', units=UNITS,
-                                defs={'OP': n, 'XK': 0, 'YK': 0, 'XV': cval(xv), 'YV': cval(yv)}, unwind=6, cap=cap,
-                                backends=['minisat'], functions=['sexp_bit_' + op]))
+        fn = 'sexp_bit_' + op
+        # fully symbolic fixnum operands (all 62 value bits free)
+        q('bit_%s[fixnum,fixnum]' % op, {'OP': n, 'XK': 0, 'YK': 0}, fn)
         for k in range(1, maxk + 1):
+            q('bit_%s[fixnum,big%d]' % (op, k), {'OP': n, 'XK': 0, 'YK': k}, fn, backends=pf)
+            q('bit_%s[big%d,fixnum]' % (op, k), {'OP': n, 'XK': k, 'YK': 0}, fn, backends=pf)
+            # boundary-lattice constants as well: cheap, and they keep deciding if a change makes the
+            # symbolic-fixnum query too expensive (symbolic kind tests, DESIGN R10)
             for v in fix:
-                for order in (0, 1):
-                    d = {'OP': n, 'XK': 0, 'YK': k, 'XV': cval(v)} if order == 0 else {'OP': n, 'XK': k, 'YK': 0, 'YV': cval(v)}
-                    nm = 'bit_%s[fix=%d,big%d]' % (op, v, k) if order == 0 else 'bit_%s[big%d,fix=%d]' % (op, k, v)
-                    qs.append(Query(name=nm, harness='C17_bit.c', units=UNITS, defs=d, unwind=6, cap=cap, backends=pf,
-                                    functions=['sexp_bit_' + op]))
+                q('bit_%s[fix=%d,big%d]' % (op, v, k), {'OP': n, 'XK': 0, 'YK': k, 'XV': cval(v)}, fn)
+                q('bit_%s[big%d,fix=%d]' % (op, k, v), {'OP': n, 'XK': k, 'YK': 0, 'YV': cval(v)}, fn)
         for xk in range(1, maxk + 1):
             for yk in range(1, maxk + 1):
                 if tier == 'quick' and xk + yk > 3:
                     continue
-                qs.append(Query(name='bit_%s[big%d,big%d]' % (op, xk, yk), harness='C17_bit.c', units=UNITS,
-                                defs={'OP': n, 'XK': xk, 'YK': yk}, unwind=6, cap=cap, backends=pf,
-                                functions=['sexp_bit_' + op]))
+                q('bit_%s[big%d,big%d]' % (op, xk, yk), {'OP': n, 'XK': xk, 'YK': yk}, fn, backends=pf)
     shifts = SHIFTS_Q if tier == 'quick' else SHIFTS_T
+    def sd(k, c):   # oracle width: operand words + words shifted in + one spare word
+        w = max(1, k) + (c // 64 + 2 if c > 0 else 1)
+        return {'KIT_MAXW': w, 'WIDE_BITS': 64 * w + 64}
     for c in shifts:
+        d = dict(OP=4, YK=0, SHIFT='(%d)' % c)
+        us = {'log2i.0': 66}
+        if tier != 'quick' or c in (1, 63, -1):
+            q('shift[fixnum,c=%d]' % c, dict(d, XK=0, **sd(0, c)), 'sexp_arithmetic_shift', unwind=8, unwindset=us, backends=pf)
         for v in fix:
             if v == 0 and c > 1:
                 continue
-            qs.append(Query(name='shift[fix=%d,c=%d]' % (v, c), harness='C17_bit.c', units=UNITS,
-                            defs={'OP': 4, 'XK': 0, 'YK': 0, 'XV': cval(v), 'SHIFT': '(%d)' % c, 'KIT_MAXW': 6, 'WIDE_BITS': 448},
-                            unwind=8, unwindset={'log2i.0': 66}, cap=cap, backends=['cadical', 'minisat'],
-                            functions=['sexp_arithmetic_shift']))
+            q('shift[fix=%d,c=%d]' % (v, c), dict(d, XK=0, XV=cval(v), **sd(0, c)), 'sexp_arithmetic_shift', unwind=8, unwindset=us)
         for xk in range(1, maxk + 1):
-            qs.append(Query(name='shift[big%d,c=%d]' % (xk, c), harness='C17_bit.c', units=UNITS,
-                            defs={'OP': 4, 'XK': xk, 'YK': 0, 'SHIFT': '(%d)' % c, 'KIT_MAXW': 6, 'WIDE_BITS': 448},
-                            unwind=8, unwindset={'log2i.0': 66}, cap=cap, backends=pf,
-                            functions=['sexp_arithmetic_shift']))
+            if tier == 'quick' and xk > 1 and c < 0:
+                continue    # 100-200 s each: thorough tier
+            q('shift[big%d,c=%d]' % (xk, c), dict(d, XK=xk, **sd(xk, c)), 'sexp_arithmetic_shift', unwind=8, unwindset=us, backends=pf)
     for xk in range(0, maxk + 1):
         kn = 'fixnum' if xk == 0 else 'big%d' % xk
-        qs.append(Query(name='bit_count[%s]' % kn, harness='C17_bit.c', units=UNITS,
-                        defs={'OP': 5, 'XK': xk, 'YK': 0}, unwind=6,
-                        unwindset={'wide_popcount.0': 64 * 4 + 1}, cap=cap, backends=pf,
-                        functions=['sexp_bit_count']))
-        qs.append(Query(name='integer_length[%s]' % kn, harness='C17_bit.c', units=UNITS,
-                        defs={'OP': 6, 'XK': xk, 'YK': 0}, unwind=6,
-                        unwindset={'wide_length.0': 64 * 4 + 1}, cap=cap, backends=pf,
-                        functions=['sexp_integer_length']))
+        mw = max(1, xk)
+        if tier == 'quick' and xk > 1:
+            continue
+        q('bit_count[%s]' % kn, {'OP': 5, 'XK': xk, 'YK': 0, 'KIT_MAXW': mw, 'WIDE_BITS': 64 * mw + 64}, 'sexp_bit_count',
+          unwindset={'wide_popcount.0': 64 * mw + 1}, backends=pf)
+        q('integer_length[%s]' % kn, {'OP': 6, 'XK': xk, 'YK': 0, 'KIT_MAXW': mw, 'WIDE_BITS': 64 * mw + 64}, 'sexp_integer_length',
+          unwindset={'wide_length.0': 64 * mw + 1}, backends=pf)
         for b in (BITS_Q if tier == 'quick' else BITS_T):
-            qs.append(Query(name='bit_set_p[%s,i=%d]' % (kn, b), harness='C17_bit.c', units=UNITS,
-                            defs={'OP': 7, 'XK': xk, 'YK': 0, 'SHIFT': b}, unwind=6, cap=cap,
-                            backends=['cadical', 'minisat'], functions=['sexp_bit_set_p']))
+            q('bit_set_p[%s,i=%d]' % (kn, b), {'OP': 7, 'XK': xk, 'YK': 0, 'SHIFT': b}, 'sexp_bit_set_p')
     return qs
 
 
 def bounds(tier):
-    return {'fixnum_lattice': FIX_Q if tier == 'quick' else FIX_T,
-            'operand_kinds': 'fixnum (binary ops and shift: a constant from fixnum_lattice per query; unary ops: all 62 value bits free) or bignum with exactly k words, k<=%d, every word free, either sign, '
+    return {'fixnum_lattice': FIX_Q[:4] if tier == 'quick' else FIX_T,
+            'operand_kinds': 'fixnum (all 62 value bits free; additionally each constant of fixnum_lattice as its own query) or bignum with exactly k words, k<=%d, every word free, either sign, '
                              'leading zero words allowed, value not representable as fixnum' % (2 if tier == 'quick' else 3),
             'shift_counts': SHIFTS_Q if tier == 'quick' else SHIFTS_T,
             'bit_indices': BITS_Q if tier == 'quick' else BITS_T,
